@@ -1,7 +1,7 @@
 (* C02 -- the Verilog reader yields the circuit the netlist denotes.  Statements only; proofs in Proofs/VerilogProofs.v. *)
 From CG Require Import Verilog.ExprParse.
 From stdpp Require Import strings gmap sets.
-From CG Require Import Types Sem Api Gen.Gen_grammar Verilog.Ast Verilog.Read Verilog.Write Proofs.VerilogProofs Run.Run_C02 Proofs.VerilogReadProofs Proofs.VerilogDenoteProofs Proofs.VerilogBbProofs Proofs.VerilogConvProofs.
+From CG Require Import Types Sem Api Gen.Gen_grammar Verilog.Ast Verilog.Read Verilog.Write Proofs.VerilogProofs Run.Run_C02 Proofs.VerilogReadProofs Proofs.VerilogDenoteProofs Proofs.VerilogBbProofs Proofs.VerilogConvProofs Proofs.VerilogRtProofs Proofs.VerilogSuccProofs.
 Open Scope string_scope.
 
 (* (1) obligation on the regenerated rule table of verilog.lark (expression .. primary, named_port_connection,
@@ -139,11 +139,31 @@ Theorem C02_read_denotes : ∀ rsv bbs m C,
 Proof. exact read_denotes. Qed.
 Print Assumptions C02_read_denotes.
 
-(* full statement for whole modules; what C02_read_denotes does not cover: (a) *success* of the read for every module of the
-   subset (needs an identifier guard - non-empty, no leading digit - that in_subset does not contain, and the success of every
-   add / connect check), (b) the registry and (c) every pin on its net (bb_ok).  (a)-(c) are decided per generated module by
-   Run_C02.holds (which evaluates the same guard in_subset and the executable form `denotes` of the conclusion);
-   see docs/C02-handover.md *)
+(* (7) success: for blackbox-free modules of the subset whose net identifiers are usable node names (non-empty, no leading
+   digit - what the lexer's CNAME guarantees; in_subset does not say it) and whose outputs are inputs or driven nets, the read
+   succeeds: every check of add / connect passes (tree induction succ_cond, then the item fold, then module()).
+   good_name n := n ≠ "" ∧ starts_digit n = false. *)
+Theorem C02_read_succeeds_bbfree : ∀ rsv bbs m,
+  ports_match m = true → in_subset bbs m = true → bbfree m → names_ok m → outs_driven bbs m → list_to_set (module_ids m) ⊆ rsv →
+  ∃ C, read rsv bbs m = Ok C.
+Proof. exact read_succeeds. Qed.
+Print Assumptions C02_read_succeeds_bbfree.
+(* (8) read_denotes in full for blackbox-free modules: the read succeeds, and name, (empty) registry, interface and both
+   directions of the denotation hold *)
+Theorem C02_read_denotes_full_bbfree : ∀ rsv bbs m,
+  ports_match m = true → in_subset bbs m = true → bbfree m → names_ok m → outs_driven bbs m → list_to_set (module_ids m) ⊆ rsv →
+  ∃ C, read rsv bbs m = Ok C ∧ c_name C = m_name m ∧ c_bbs C = ∅ ∧
+    inputs (c_g C) = list_to_set (decl_inputs m) ∧ outputs (c_g C) = list_to_set (decl_outputs m) ∧
+    (∀ w, consistent (c_g C) w → ∃ x, sat_module m w x) ∧
+    (∀ v x, sat_module m v x → ∃ w, consistent (c_g C) w ∧ ∀ n, n ∈ used_nets m → w n = v n).
+Proof. exact read_denotes_full_bbfree. Qed.
+Print Assumptions C02_read_denotes_full_bbfree.
+
+(* full statement for whole modules; what the theorems above do not cover: for modules WITH blackbox instances (a) *success* of the
+   read (as stated here it also lacks the identifier guard names_ok / outs_driven of (7), and a synthetic name may equal a pin
+   name: a dotted net `x.q` next to an instance `not_x`), (b) the registry and (c) every pin on its net (bb_ok).  (a)-(c) are
+   decided per generated module by Run_C02.holds (which evaluates the same guard in_subset and the executable form `denotes`
+   of the conclusion); see docs/C02-handover.md *)
 Definition C02_read_denotes_full : Prop := ∀ rsv bbs m,
   ports_match m = true → in_subset bbs m = true → list_to_set (module_ids m) ⊆ rsv →
   ∃ C, read rsv bbs m = Ok C ∧ c_name C = m_name m ∧
@@ -159,6 +179,14 @@ Definition ex_mod : vmodule :=
      [IInput ["a"; "b"]; IOutput ["o"; "not_a"];
       IAssign [("o", CTern (OXor (XAnd (AUn (UNot (PId "a"))))) (OXor (XXor (XAnd (L02 (PId "a"))) (L02 (PId "b")))) (L04 (PConst K0)));
                ("not_a", L25 (AAnd (L02 (PId "a")) (UPrim (PId "b"))))]].
+Example C02_ex_bbfree : bbfree ex_mod ∧ names_ok ex_mod ∧ outs_driven [] ex_mod.
+Proof.
+  split; [|split].
+  - intros mn insts Hin. unfold ex_mod, Md in Hin. simpl in Hin. rewrite !elem_of_cons, elem_of_nil in Hin. naive_solver.
+  - intros s Hs. revert s Hs. apply Forall_forall. apply (bool_decide_eq_true_1 (Forall good_name (module_nets ex_mod))). vm_compute. reflexivity.
+  - intros s Hs. revert s Hs. apply Forall_forall.
+    apply (bool_decide_eq_true_1 (Forall (λ s, s ∈ decl_inputs ex_mod ∨ s ∈ module_defs [] ex_mod) (decl_outputs ex_mod))). vm_compute. reflexivity.
+Qed.
 Example C02_ex_in_subset : ports_match ex_mod = true ∧ in_subset [] ex_mod = true ∧ bool_decide (list_to_set (module_ids ex_mod) ⊆ ex_rsv) = true.
 Proof. vm_compute. done. Qed.
 Example C02_ex_read : match read ex_rsv [] ex_mod with Ok C => denotes [] ex_mod C | _ => false end = true.
